@@ -42,7 +42,7 @@ pub fn read_replay(path: &str) -> Option<ReplayFile> {
 pub fn write_replay(id: &str, bytes_hex: &str, f: &Failure, seed: u64) -> String {
     let dir = format!("{}/out/replays", VERIF_ROOT);
     let _ = std::fs::create_dir_all(&dir);
-    let h = util::fnv64(format!("{}{}", bytes_hex, f.clause).as_bytes());
+    let h = util::fnv64(format!("{}{}{}{}", bytes_hex, f.clause, f.key, f.decoded).as_bytes());
     let path = format!("{}/{}-{}-{:016x}.json", dir, id, seed, h);
     let v = serde_json::json!({
         "property": id,
@@ -60,11 +60,17 @@ pub fn write_replay(id: &str, bytes_hex: &str, f: &Failure, seed: u64) -> String
 /// Run a single case in a fresh child process; returns the failure if any (None = pass),
 /// Err on crash/timeout of the child.
 pub fn run_case_in_child(id: &str, bytes: &[u8], timeout_s: u64) -> Result<Option<Failure>, String> {
+    run_case_in_child_from(id, bytes, None, timeout_s)
+}
+
+/// `replay_file`: when the byte string is empty the child runs the `decoded` case of that file
+pub fn run_case_in_child_from(id: &str, bytes: &[u8], replay_file: Option<&str>, timeout_s: u64) -> Result<Option<Failure>, String> {
     let exe = std::env::current_exe().map_err(|e| e.to_string())?;
     let mut child = Command::new(exe)
         .arg("case")
         .arg(id)
-        .arg(util::hex(bytes))
+        .arg(if bytes.is_empty() { "-".to_string() } else { util::hex(bytes) })
+        .arg(replay_file.unwrap_or(""))
         .stdout(Stdio::piped())
         .stderr(Stdio::null())
         .spawn()
@@ -186,7 +192,7 @@ pub fn check(id: &str, tier: Tier) -> i32 {
             }
             if let Some(r) = read_replay(&p) {
                 replays_run += 1;
-                match run_case_in_child(id, &r.bytes, 300) {
+                match run_case_in_child_from(id, &r.bytes, Some(&p), 300) {
                     Ok(None) => {
                         if r.expect.starts_with("known:") {
                             println!("NOTE: property={} replay {} (expected known finding {}) now passes", id, p, &r.expect[6..]);
@@ -464,7 +470,7 @@ pub fn replay(path: &str) -> i32 {
         }
     };
     let known = findings::for_property(&r.property);
-    match run_case_in_child(&r.property, &r.bytes, 600) {
+    match run_case_in_child_from(&r.property, &r.bytes, Some(path), 600) {
         Ok(None) => {
             println!("replay {}: property {} holds on this input", path, r.property);
             0
